@@ -50,3 +50,6 @@ add("C05", "c05", "exploration", 600, 12000,
     t={"require": ["multi-page", "start-after", "fault-below", "iterated-twice", "kind:referrers"]},
     assumptions=["real loopback HTTP for http layers", "artifactType filter always empty (documented TODO)",
                  "with a failing layer below, delivered items must be expected items in ascending order and the iteration must end with an error; the exact prefix is not prescribed"])
+
+add("C12", "c12", "exploration", 1500, 40000, exhaustive_if=["FilterWrappersExhaustive2Repos"],
+    assumptions=["policies are pure functions of (name, access kind) as the property states", "backend is a recorder that accepts every call"])
